@@ -5,9 +5,9 @@ CONSTANTS
   Sizes <- SizesQ
   MaxWrites = 3
   ReadSizes <- ReadsQ
-  EofStyles = {"separate"}
+  EofStyles = {"separate", "with-data"}
   CutAll = TRUE
-  FixEof = FALSE
+  FixEof = TRUE
   FixShort = FALSE
   Tag = 11
   Crafted <- CraftedSet
